@@ -1,6 +1,6 @@
 """C01 — every submitted work item runs exactly once and none is stranded."""
 import os, re, subprocess
-from common import sh
+from common import sh, run_lines
 from lanetrace import run_lane, forced
 from props.C02 import replay
 
@@ -18,24 +18,70 @@ META = {
 }
 
 THEOREMS = ["C01.no_stranded_work_serial", "C01.quiescent_unlocked", "C01.pushed_items_start_once_in_order", "C01.width_accounting",
-            "C01.hierarchy_projects", "C01.pool_pending_accounted", "C01.pool_no_phantom_pending"]
+            "C01.hierarchy_projects", "C01.pool_pending_accounted", "C01.pool_no_phantom_pending",
+            "C01.unlock_refused_when_dirty", "C01.unlock_not_done_leaves_dirty", "C01.try_lock_only_when_free", "C01.barrier_sync_only_from_idle", "C01.width_refused_when_dirty_or_pending"]
 
 
 def run(ctx):
     ctx.proof("DispatchVerif.Props.C01", THEOREMS)
     ctx.assumptions += ["weak fairness of enabled threads; the root queue eventually services its tokens", "sequentially consistent interleaving model of the atomic operations",
                         "pthread_create succeeds; the workqueue monitor classifies blocked threads correctly (observed by the pool scenario)"]
-    cfg = [(2, 600, 1), (4, 400, 0), (8, 300, 0), (12, 200, 0), (6, 300, 0, 1), (10, 200, 0, 1)] if not ctx.thorough else [(2, 5000, 1), (2, 5000, 0), (4, 3000, 0), (8, 2500, 0), (12, 2000, 0), (16, 1500, 0), (3, 3000, 1), (6, 3000, 0, 1), (12, 1500, 0, 1)]
+    cfg = [(2, 600, 1), (4, 400, 0), (8, 300, 0), (12, 200, 0), (6, 300, 0, 1), (10, 200, 0, 1), (4, 500, 0, 0, 2), (4, 500, 0, 0, 5)] if not ctx.thorough else [(2, 5000, 1), (2, 5000, 0), (4, 3000, 0), (8, 2500, 0), (12, 2000, 0), (16, 1500, 0), (3, 3000, 1), (6, 3000, 0, 1), (12, 1500, 0, 1), (4, 5000, 0, 0, 2), (4, 5000, 0, 0, 3), (4, 5000, 0, 0, 16)]
     run_lane(ctx, cfg, what="c01")
+    # the dq_state word functions against their word-level models (DqW), on generated words
+    drv = ctx.driver()
+    hl = ctx.harness("lfn")
+    rq = ctx.rng.fork("dq")
+    INTERVAL, FULLBIT, INBAR, PEND, DIRTY, ENQ, ENQM = 1 << 41, 1 << 53, 1 << 54, 1 << 40, 1 << 39, 1 << 31, 1 << 38
+    qlines = []
+    for _ in range(60000 if ctx.thorough else 8000):
+        W = rq.choice([1, 1, 2, 3, 16, 4094])
+        used = rq.choice([0, 0, 1, W - 1, W, rq.below(W + 1)])
+        st = (4096 - W + used) * INTERVAL
+        if rq.chance(1, 4): st |= INBAR
+        if rq.chance(1, 4): st |= PEND
+        if rq.chance(1, 3): st |= DIRTY
+        if rq.chance(1, 2): st |= ENQ
+        if rq.chance(1, 12): st |= ENQM
+        st |= rq.choice([0, 0, 1, 2, 3]) << 36                       # role
+        st |= rq.choice([0, 0, 1, 4, 6]) << 32                       # max QoS
+        if rq.chance(1, 8): st |= 1 << 35                            # received override
+        if rq.chance(1, 3): st |= rq.choice([4, 1000, (1 << 30) - 4])   # owner
+        if rq.chance(1, 6): st |= rq.choice([1, 2, 63]) << 58        # suspend count
+        if rq.chance(1, 20): st |= 1 << 57
+        if rq.chance(1, 20): st |= 3 << 55                           # inactive + needs activation
+        op = rq.choice([1, 2, 4, 5, 6, 8, 8])
+        a, a2 = 0, 0
+        if op == 1: st |= ENQ                                        # the caller was dequeued from the root queue: ENQUEUED is set
+        if op == 2: a = rq.choice([4, 1000])
+        if op == 5: a = rq.below(2)
+        if op == 8:
+            a = rq.choice([0, INTERVAL, W * INTERVAL, INBAR + W * INTERVAL, used * INTERVAL]); a2 = rq.below(2)
+        if rq.chance(1, 10) and op == 2:
+            st = (4096 - W) * INTERVAL | (st & (3 << 36))            # the idle word: the fast path succeeds
+        qlines.append("DQ %d %d %d %d %d" % (op, st, W, a, a2))
+    qreal, _, _ = run_lines(hl, qlines)
+    dist = {}
+    for l, o in zip(qlines, qreal):
+        k = "op%s:%s" % (l.split()[1], "taken" if o.split()[0] != "0" else "refused")
+        dist[k] = dist.get(k, 0) + 1
+    ctx.cov["layers"].setdefault("L-fn dq_state word functions", {})["outcomes"] = dist
+    if drv:
+        qmodel, _, _ = run_lines(drv, qlines)
+        qd = ctx.diff_streams("L-fn dq_state word functions", qlines, qreal, qmodel)
+        for l, rr, m in qd[:3]:
+            ctx.broken("L-fn correspondence inline_internal.h word functions vs DqW (input `%s`: real %s, model %s)" % (l, rr, m))
     # regression for F14 (repaired): pending-barrier reservation + refused unlock + suspension must not strand the queue
     forced(ctx, "f14_pending_barrier", "F14", "lane:stranded:pending-barrier-reserved-twice", "F14")
     # the thread pool: bookkeeping trace + the blocked-pool scenario of the property statement
     h = ctx.harness("c01_pool")
     drv = ctx.driver()
-    runs = 3 if ctx.thorough else 1
+    # thread names: the pool monitor classifies workers by reading /proc/<tid>/stat, whose second field is the (free-form) thread name
+    names = ["", "x R"] + (["my pool S", "a) R (b", "R R R"] if ctx.thorough else [])
+    runs = len(names)
     for i in range(runs):
         path = os.path.join(ctx.outdir, "pool-%d.txt" % i)
-        cmd = [h, str(ctx.seed * 10 + i)]
+        cmd = [h, str(ctx.seed * 10 + i), names[i]]
         with open(path, "w") as f:
             try:
                 rc = subprocess.run(cmd, stdout=f, stderr=subprocess.DEVNULL, timeout=200).returncode
